@@ -5,6 +5,7 @@
 From Coq Require Import List ZArith Bool.
 From V Require Import Gen.Params RunLoop.Model RunLoop.Proofs.
 From V Require ConnIDs.Routing ConnIDs.ProofsRouting.
+From V Require RunLoop.Run RunLoop.SimRun RunLoop.ProofsSim.
 From V Require FrameSorter.Model RecvStream.Model RecvStream.Spec RunLoop.ProofsStreams.
 Import ListNotations.
 Open Scope Z_scope.
@@ -106,6 +107,23 @@ Theorem C17_single_cause_timeout : forall s l1 now pto ce l2,
 Proof. exact single_cause_timeout. Qed.
 Print Assumptions C17_single_cause_timeout.
 
+(** exactly one recorded cause, whatever races: if a cause is recorded after a history of events it is the request of
+    one of its close events (application, peer's CONNECTION_CLOSE, Transport.Close / destroy, loop errors) or the timeout
+    found by one of its wake-ups, and every extension of the history records the same one; of requests racing at one
+    instant the one that reaches setCloseError first is recorded *)
+Theorem C17_one_recorded_cause : forall l s ce, closeErr s = None -> closeErr (run s l) = Some ce ->
+  (In (EvClose ce) l \/
+   exists now pto, In (EvWake now pto) l /\
+     (ce = {| ce_err := EIdle; ce_immediate := true |} \/ ce = {| ce_err := EHsTimeout; ce_immediate := true |})) /\
+  forall l', closeErr (run s (l ++ l')) = Some ce.
+Proof. exact recorded_cause_origin. Qed.
+Print Assumptions C17_one_recorded_cause.
+
+Theorem C17_race_first_wins : forall s reqs ce rest, closeErr s = None ->
+  closeErr (run s (map EvClose (ce :: reqs) ++ rest)) = Some ce.
+Proof. exact race_first_wins. Qed.
+Print Assumptions C17_race_first_wins.
+
 (** every later SendDatagram returns the cause, whether or not its queue has room
     (was refuted before datagramQueue.Add looked at the closed queue: finding F1) *)
 Theorem C17_send_datagram_after_close : forall a e, api_call (fanout a e) CSendDatagram = RErr e.
@@ -194,6 +212,22 @@ Print Assumptions C17_silent_causes_regression.
 Theorem C17_amplification_limited_silent : forall client sf ce a c, close_action client sf true ce <> ActSendClose a c.
 Proof. exact amplification_limited_silent. Qed.
 Print Assumptions C17_amplification_limited_silent.
+
+(** CONNECTION_CLOSE while the handshake is in progress (packetPacker.packConnectionClose, RFC 9000 10.2.3): in Initial and
+    Handshake packets an application close goes out as a transport close with APPLICATION_ERROR (0xc), so a peer that has
+    not completed the handshake never sees an application error code; transport closes are the same at every level *)
+Theorem C17_close_frame_during_handshake : forall isApp code,
+  frame_at LInitial (isApp, code) = frame_at LHandshake (isApp, code) /\
+  fst (frame_at LInitial (isApp, code)) = false /\
+  (isApp = true -> frame_at LInitial (isApp, code) = (false, rl_ApplicationErrorErrorCode)) /\
+  (isApp = false -> frame_at LInitial (isApp, code) = (false, code)) /\
+  frame_at L1RTT (isApp, code) = (isApp, code) /\ frame_at L0RTT (isApp, code) = (isApp, code).
+Proof. exact frame_at_levels. Qed.
+Print Assumptions C17_close_frame_during_handshake.
+
+Theorem C17_application_error_code_is_0xc : rl_ApplicationErrorErrorCode = 12.
+Proof. exact application_error_code_is_0xc. Qed.
+Print Assumptions C17_application_error_code_is_0xc.
 
 (** the stand-in of a locally closed connection (closed_conn.go after the anti-amplification repair): the back-off
     gate of this unit's model — a copy can only go out for packet n if n is a power of two — ... *)
@@ -418,6 +452,34 @@ Theorem C17_start_failure_released : forall client sf ampl t elapsed expiry a c,
   close_action client sf ampl (start_failure (EOther t)) <> ActSendClose a c.
 Proof. exact start_failure_released. Qed.
 Print Assumptions C17_start_failure_released.
+
+(** ** The simulated connections (simclose unit)
+
+    Every scenario of the simclose unit — a real client and a real server over the simulated network, ended by one
+    of its causes with calls parked on both sides — logs per side the recorded cause and whether the close was
+    immediate (both read from Conn.closeErr), and the replay [SimRun.check_side] compares the model's predictions
+    with what the API calls returned, what the router saw and what the transports' routing tables hold. For every side the
+    replay accepts: *)
+Theorem C17_simulated_side : forall s, V.RunLoop.SimRun.check_side s = true ->
+  Forall (fun kc => snd kc = 0) (V.RunLoop.SimRun.sd_parked s ++ V.RunLoop.SimRun.sd_later s) /\
+  V.RunLoop.SimRun.sd_routing s = 0 /\
+  (V.RunLoop.SimRun.sd_sent s = true <->
+     is_remote (V.RunLoop.Run.errk_of (V.RunLoop.SimRun.sd_cause s)) = false /\ V.RunLoop.SimRun.sd_immediate s = false /\
+     silent_err (V.RunLoop.Run.errk_of (V.RunLoop.SimRun.sd_cause s)) = false /\
+     (exists isApp code, close_frame (mapped_err {| ce_err := V.RunLoop.Run.errk_of (V.RunLoop.SimRun.sd_cause s);
+                                                      ce_immediate := V.RunLoop.SimRun.sd_immediate s |}) = (isApp, code))) /\
+  (forall p, V.RunLoop.SimRun.sd_peer s = Some p -> V.RunLoop.SimRun.sd_sent s = true /\
+     p = (let '(isApp, code) := close_frame (mapped_err {| ce_err := V.RunLoop.Run.errk_of (V.RunLoop.SimRun.sd_cause s);
+                                                            ce_immediate := V.RunLoop.SimRun.sd_immediate s |}) in
+          (if isApp then 3 else 4, code))).
+Proof. exact V.RunLoop.ProofsSim.accepted_side. Qed.
+Print Assumptions C17_simulated_side.
+
+(** non-vacuity: an observation as logged by a client that closed with application error 52 *)
+Example C17_simulated_side_example :
+  V.RunLoop.SimRun.check_side (V.RunLoop.SimRun.mkSide true (1, 52) false true [(0, 0); (2, 0); (6, 0)] [(8, 0); (7, 0); (1, 0)] 0 (Some (3, 52))) = true.
+Proof. reflexivity. Qed.
+Print Assumptions C17_simulated_side_example.
 
 (** ** Non-vacuity *)
 
